@@ -1,2 +1,54 @@
-(* C13 -- placeholder *)
-From NV Require Import Model.Nucleo.
+(* C13 -- No lost wake-up: a tick that reports 'running' is followed by a notification.
+   Statements in Spec/NucleoStatements.v, proofs in Proofs/NotifyFacts.v (an invariant over the control
+   fields of the protocol model: g_owed, tpc, lock, canceled, should_notify, post).  Quantification: every
+   history of the protocol model - every interleaving, at the granularity of the yield points, of the
+   ticking thread (timeout 0 or long: "times out" is enabled exactly while the lock is held) with the
+   background run and its post-unlock phase, with injector activity, edits and restarts.
+   The ghost flag g_owed is set when a tick returns running = true and cleared by a worker notification,
+   by the next tick begin, or by restart (a later tick takes the obligation over).
+     C13_no_lost_wakeup : while a notification is owed the system is never quiescent;
+     C13_will_notify    : the closure that has released the lock and is about to look at the flag did
+                          complete and finds the flag armed - so its next two steps call notify;
+     C13_notify_after_unlock : the worker notifies only from the post-unlock phase, i.e. never before the
+                          results are available to the next tick.
+   The protocol of the pinned tree (flag read and notify under the lock, no re-check after arming the
+   flag) violates the first two: the check found the schedule on the real code
+   (findings/C13-lost-wakeup-witness.json); fixed in /repo by 154d49e and the model follows the fix.
+   "Every push / extend calls notify after the new items are visible" is immediate from
+   Injector::push / extend (the call follows the vector operation) and is checked by the notify counter
+   of the harness.  Real time is not modelled: "timeout" is a scheduler choice. *)
+From Coq Require Import NArith List Bool.
+From NV Require Import Model.Nucleo Spec.NucleoStatements Proofs.NotifyFacts.
+Import Nucleo.
+Import ListNotations.
+Local Open Scope N_scope.
+
+Theorem C13_no_lost_wakeup : forall sc ln, C13_no_lost_wakeup_stmt sc ln.
+Proof. exact NotifyFacts.C13_no_lost_wakeup. Qed.
+
+Theorem C13_will_notify : forall sc ln, C13_will_notify_stmt sc ln.
+Proof. exact NotifyFacts.C13_will_notify. Qed.
+
+Theorem C13_notify_after_unlock : forall sc ln, C13_notify_after_unlock_stmt sc ln.
+Proof. exact NotifyFacts.C13_notify_after_unlock. Qed.
+
+(* non-vacuity: the interleaving that lost the wake-up on the pinned tree - the run ends between the
+   tick's failed try-lock and its re-arming of the flag - is a history of the model; with the repaired
+   protocol the tick's second look at the lock succeeds and it returns with the results instead of
+   `running` *)
+Example C13_nonvacuous :
+  let sc := fun _ _ _ => @None N in let ln := fun _ _ => 0%N in
+  let es := [ENewInjector 1; EReserve 0; EPublish 0 0;
+             ETickBegin true; ETick; ETick; ETick;      (* begin, set cancel + lock, body -> before_spawn, spawn -> second inner *)
+             ERun [0%N] 1%N;                             (* run.start -> run.end *)
+             ETick;                                      (* second try-lock fails (timeout 0) *)
+             ERun [] 0%N;                                (* run.end -> unlocked (lock released) *)
+             ETick;                                      (* re-arm *)
+             ETick] in                                   (* second look: lock free *)
+  let s := run_events sc ln init_nstate es in
+  tpc s = TIdle /\ last_tick s = Some (true, false) /\ g_owed s = false /\ sn_count (snap s) = 1%N.
+Proof. vm_compute. repeat split; reflexivity. Qed.
+
+Print Assumptions C13_no_lost_wakeup.
+Print Assumptions C13_will_notify.
+Print Assumptions C13_notify_after_unlock.
